@@ -64,14 +64,14 @@ def bounds(tier):
 
 def _cost(p):
     sizes = [len(a["lattice"]) for a in G.assignable(p)]
+    s2 = [min(s, 2) for s in sizes]
+    n2 = int(np.prod(s2)) * sum(s - 1 for s in s2)
     if p["walk"] == "euler3":
         n = int(np.prod(sizes)) * sum(s - 1 for s in sizes)
-    elif p["walk"] == "euler2":
-        s2 = [min(s, 2) for s in sizes]
-        n = int(np.prod(s2)) * sum(s - 1 for s in s2)
-    else:
-        return 2 * len(sizes) + 4
-    return 2 * n + 4  # two modes + build
+        return 2 * n + 2 * n2 + 4
+    if p["walk"] == "euler2":
+        return 4 * n2 + 4
+    return (4 if p.get("targeted") else 2) * len(sizes) + 4  # modes (targeted counts twice) + build
 
 
 def units(tier, seed):
@@ -119,12 +119,12 @@ def _guard(fn, *a, **k):
 
 
 def _walk(p, sizes):
+    w2 = G.euler_walk([min(s, 2) for s in sizes])
     if p["walk"] == "euler3":
         w = G.euler_walk(sizes)
-        return {"auto": w, "manual": w}
+        return {"auto": w, "manual": w, "targeted": w if p.get("deep_targeted") else w2}
     if p["walk"] == "euler2":
-        w = G.euler_walk([min(s, 2) for s in sizes])
-        return {"auto": w, "manual": w}
+        return {"auto": w2, "manual": w2, "targeted": w2}
     return G.star_walk(sizes)
 
 
@@ -134,6 +134,7 @@ class Checker:
         self.tier = tier
         self.seen_sigs: set[str] = set()
         self.max_ratio = 0.0
+        self.styles: set = set()
         self.group_labels: list[str] = []
 
     def fail(self, check, quantity, p, case, msg):
@@ -146,6 +147,28 @@ class Checker:
         self.res.violations[-1]["unit"] = {"tier": self.tier, "labels": list(self.group_labels)}
 
     # -- the oracle -------------------------------------------------------------
+    def compare_total(self, m, p, ref, key, ctx, after="") -> np.ndarray:
+        """One of the three totals against the reference (scalar sums; user-supplied
+        nodes keep their shape: they are forwarded unchanged)."""
+        v = np.asarray(_guard(getattr, m, key))
+        want = ref[key]
+        userkey = key in (p.get("user") or {})
+        if v.shape != want.shape:
+            self.fail("totals", f"{key}-shape{after}", p, {**ctx, "got_shape": v.shape, "want_shape": want.shape},
+                      f"Model.{key} has shape {v.shape}, expected {want.shape}" + (" (user-supplied node must be forwarded unchanged)" if userkey else " (a scalar)"))
+            return v
+        err = float(np.max(np.abs(np.asarray(v, dtype=np.float64) - want))) if v.size else 0.0
+        scale = ref["scale"][key]
+        tol = REL * scale + ABS
+        if not err <= tol:
+            what = "user-supplied node not forwarded unchanged" if userkey else "differs from the sum of the reference log-densities"
+            terms = {k: round(float(d["logp"].sum()), 4) for k, d in ref["dists"].items()}
+            self.fail("totals", f"{key}{after}", p, {**ctx, "got": v, "want": want, "terms": terms},
+                      f"Model.{key} = {np.round(v, 6).tolist()} but reference = {np.round(want, 6).tolist()} ({what}; terms {terms}) at {ctx}")
+        elif scale > 0:
+            self.max_ratio = max(self.max_ratio, err / (scale + 1.0))
+        return v
+
     def compare(self, b, p, valuation, ctx, table, cache=None):
         """Compares the live model with the reference at `valuation`."""
         m = b.model
@@ -158,20 +181,7 @@ class Checker:
                 cache[ck] = ref
         got = {}
         for key in TOTALS:
-            v = np.asarray(_guard(getattr, m, key))
-            got[key] = v
-            if v.shape != ():
-                self.fail("totals", f"{key}-shape", p, ctx, f"Model.{key} has shape {v.shape}, expected a scalar")
-                continue
-            err = abs(float(v) - ref[key])
-            scale = ref["scale"][key]
-            tol = REL * scale + ABS
-            if not err <= tol:
-                what = "user-supplied node not forwarded unchanged" if key in (p.get("user") or {}) else "differs from the sum of the reference log-densities"
-                self.fail("totals", key, p, {**ctx, "got": float(v), "want": ref[key], "terms": {k: float(d["logp"].sum()) for k, d in ref["dists"].items()}},
-                          f"Model.{key} = {float(v):.6f} but reference = {ref[key]:.6f} ({what}; terms { {k: round(float(d['logp'].sum()), 4) for k, d in ref['dists'].items()} }) at {ctx}")
-            elif scale > 0:
-                self.max_ratio = max(self.max_ratio, err / (scale + 1.0))
+            got[key] = self.compare_total(m, p, ref, key, ctx)
         # every distribution node / Var.log_prob
         for label, d in ref["dists"].items():
             node = b.dist_nodes[label]
@@ -198,12 +208,12 @@ class Checker:
                 self.fail("decomposition", "lik+prior", p, {**ctx, "log_prob": lhs, "lik+prior": rhs}, f"log_prob {lhs} != log_lik + log_prior {rhs}")
         # per_obs invariance, differentially across the variants of one base program
         key = ctx["mode"], tuple(ctx["state"])
-        if all(got[k].shape == () for k in TOTALS):
-            mine = tuple(float(got[k]) for k in TOTALS)
+        if all(got[k].shape == ref[k].shape for k in TOTALS):
+            mine = tuple(np.asarray(got[k], dtype=np.float64) for k in TOTALS)
             first = table.setdefault(key, (p["label"], mine))
             if first[0] != p["label"]:
                 for k, a, c in zip(TOTALS, first[1], mine):
-                    if not abs(a - c) <= REL * ref["scale"][k] + ABS:
+                    if a.shape != c.shape or not np.all(np.abs(a - c) <= REL * ref["scale"][k] + ABS):
                         self.fail("per_obs", f"{k}-changes", p, {**ctx, "other": first[0], "a": a, "b": c},
                                   f"{k} = {c} but {a} in {first[0]} which differs only in per_obs")
         return ref, got
@@ -242,18 +252,36 @@ class Checker:
             ref, got = self.compare(b, p, live, {"mode": "built", "state": state, "step": 0}, table)
             # transformed variables start off-lattice: move them onto it
             pre = [(i, 0) for i, s in enumerate(state) if s is None]
-            for mode in ("auto", "manual"):
+            styles = ("jnp", "np", "inplace")
+            # the cycle starts at a program-dependent offset so that every style occurs in
+            # every mode ("inplace" falls back to "np" while the stored value is immutable)
+            off = sum(map(ord, p["label"]))
+            nassign = [(off + i) % 3 for i in range(len(names))]
+            for mode in ("auto", "manual", "targeted") if p.get("targeted") else ("auto", "manual"):
                 m.auto_update = mode == "auto"
                 for step, (i, a) in enumerate(pre + walk[mode] if mode == "auto" else walk[mode]):
                     nm = names[i]
-                    _guard(b.assign, nm["target"], nm["lattice"][a], nm["via"])
-                    if mode == "manual":
-                        _guard(m.update)
+                    # assignment style cycles per variable: new jax array, new numpy array,
+                    # then "fetch the numpy array, edit it in place, assign it back"
+                    style = _guard(b.assign_style, nm["target"], nm["lattice"][a], nm["via"], styles[nassign[i] % 3])
+                    nassign[i] += 1
+                    self.styles.add(style)
                     state[i] = a
                     n_trans += 1
                     valuation = {x["name"]: G.f64(x["lattice"][s]) if s is not None else live[x["name"]] for x, s in zip(names, state)}
-                    ref, got = self.compare(b, p, valuation, {"mode": mode, "state": list(state), "step": step, "assigned": [nm["name"], a]}, table, cache)
-                if any(s not in (0, None) for s in state) and p["walk"] != "star":
+                    ctx = {"mode": mode, "state": list(state), "step": step, "assigned": [nm["name"], a], "style": style}
+                    if mode == "targeted":
+                        # what finite_discrete_gibbs_kernel does: refresh only one total
+                        target = TOTALS[step % 3]
+                        _guard(m.update, "_model_" + target)
+                        ck = tuple(state)
+                        if ck not in cache:
+                            cache[ck] = G.evaluate(p, valuation)
+                        self.compare_total(m, p, cache[ck], target, {**ctx, "targeted_update": "_model_" + target}, after="-after-targeted-update")
+                    if mode != "auto":
+                        _guard(m.update)
+                    ref, got = self.compare(b, p, valuation, ctx, table, cache)
+                if any(s not in (0, None) for s in state) and (p["walk"] != "star" or mode == "targeted"):
                     raise RuntimeError("walk did not return to the origin")
         except LieselRaised as e:
             self.fail("walk", "raises", p, {"state": state}, f"liesel raised {e}")
@@ -263,6 +291,8 @@ class Checker:
         res.executions += 1
         flags = "".join(it.get("flag", "-")[0] for it in p["items"] if it.get("dist"))
         pos = "".join("TF"[not it.get("per_obs", True)] for it in p["items"] if it.get("dist"))
+        for st in self.styles:
+            res.outcome("assignment-style", st)
         res.outcome(p["label"].split("/")[0], flags, pos, "dec" if ref["decomposable"] else "nodec", p["walk"], "user:" + "+".join(sorted(p.get("user") or {})))
         res.note([p["label"], n_trans, [repr(float(np.sum(got[k]))) for k in TOTALS]])
         res.sample({"label": p["label"], "transitions": n_trans, "totals": {k: float(np.sum(got[k])) for k in TOTALS},
@@ -271,8 +301,11 @@ class Checker:
 
 def run_unit(unit):
     core.assert_repo()
+    import warnings
+
     from mc import seams
 
+    warnings.simplefilter("ignore")
     res = core.UnitResult(unit)
     progs = {p["label"]: p for p in G.all_programs(unit["tier"])}
     chk = Checker(res, unit["tier"])
